@@ -53,6 +53,7 @@ FILES = {
   'U': '19:ppp=2',
   'V': '20:ppp=2',
   'X': '6 21:ppp=3 20:ppp=2:s=31',
+  'Y': '6:s=-1 1:s=2147483647 2:s=-2147483648 6:s=0',     # extreme serial numbers (0xFFFFFFFF on a non-final link)
 }
 
 def links_of(fkey):
